@@ -1,7 +1,9 @@
-import NanoVerif.Proofs.LSearch
+import NanoVerif.Proofs.LSearchMT
+import NanoVerif.Proofs.LSearchCG
 /-!
-  C07 — helper lemmas, part 2: Moré–Thuente and CG_DESCENT (request counts; the returned state is the oracle's answer
-  at the returned step) and the composition with the preamble of `lsearchk_t::get`.
+  C07 — helper lemmas, part 2: CG_DESCENT (request counts; the returned state is the oracle's answer at the returned step)
+  and the composition of the five `do_get` with the preamble of `lsearchk_t::get`.
+  (Moré–Thuente's loop: `Proofs/LSearchMT.lean`; the success cases of CG_DESCENT: `Proofs/LSearchCG.lean`.)
 -/
 namespace NanoVerif.LSearch
 open NanoVerif.Gen.LsPredicates
@@ -21,19 +23,6 @@ theorem sameOrCons_trans {φ : Oracle α} {a b c : Ctx α} {ta tb tc : α}
   · exact Or.inr h2
 
 theorem sameOrCons_refl {φ : Oracle α} {a : Ctx α} {t : α} : SameOrCons φ a t a t := Or.inl ⟨rfl, rfl⟩
-
-/-! ### Moré–Thuente: every exit returns the current step `stp` with the current state; one request per iteration -/
-
-theorem morethuente_spec (cfg : Cfg α) (φ : Oracle α) (s0 : Eval α) : ∀ (n : Nat) (m : MT α) (ctx : Ctx α),
-    Post φ (fun _ => True) ctx m.dc.stp n (morethuente cfg φ s0 n m ctx) := by
-  intro n
-  induction n with
-  | zero => intro m ctx; exact post_fail (by simp)
-  | succ n ih =>
-    intro m ctx
-    simp only [morethuente]
-    exact ite_post (fun _ => post_here trivial)
-      (fun _ => ite_post (fun _ => post_step (ih _ _)) (fun _ => post_fail (by simp)))
 
 /-! ### CG_DESCENT -/
 
@@ -181,16 +170,17 @@ def Advertised (m : Method) (cfg : Cfg α) (s0 : Eval α) (r : Res α) : Prop :=
   | .backtrack => hasArmijo s0.f s0.g r.ctx.cur.f r.t cfg.c1 = true ∧ r.ctx.cur.ok = true
   | .lemarechal => hasArmijo s0.f s0.g r.ctx.cur.f r.t cfg.c1 = true ∧ hasWolfe s0.g r.ctx.cur.g cfg.c2 = true
   | .fletcher => hasArmijo s0.f s0.g r.ctx.cur.f r.t cfg.c1 = true ∧ hasStrongWolfe s0.g r.ctx.cur.g cfg.c2 = true
-  | .morethuente => True
+  | .morethuente => MtConv cfg s0 r
   | .cgdescent => True
 
-theorem doGet_spec (m : Method) (cfg : Cfg α) (φ : Oracle α) (s0 : Eval α) (t : α) (ctx : Ctx α) :
+/-- `do_get` entered along a descent direction -/
+theorem doGet_spec (m : Method) (cfg : Cfg α) (φ : Oracle α) (s0 : Eval α) (t : α) (ctx : Ctx α) (hg : s0.g < 0) :
     Post φ (Advertised m cfg s0) ctx t (doGetBound m cfg.maxIter) (doGet m cfg φ s0 t ctx) := by
   cases m with
   | backtrack => exact backtrack_spec cfg φ s0 _ t ctx
   | lemarechal => exact lemarechal_spec cfg φ s0 _ _ _ t ctx
   | fletcher => exact fletcher_spec cfg φ s0 _ _ _ t ctx
-  | morethuente => exact morethuente_spec cfg φ s0 _ (morethuenteInit cfg s0 t) ctx
+  | morethuente => exact morethuente_spec cfg φ s0 hg _ (morethuenteInit cfg s0 t) ctx
   | cgdescent => exact cgdescent_spec cfg φ s0 t ctx
 
 /-- `get` along a non-descent direction -/
@@ -223,14 +213,14 @@ theorem get_spec (m : Method) (cfg : Cfg α) (φ : Oracle α) (s0 : Eval α) (t0
         exact ⟨by simp at h1 ⊢; omega, fun h => by simp at h⟩
       | inr q =>
         obtain ⟨g1, _, g3⟩ := hg
-        obtain ⟨d1, d2⟩ := doGet_spec m cfg φ s0 q.1 q.2
-        refine ⟨by simp at h1 ⊢; omega, fun h => ?_⟩
-        obtain ⟨a, c⟩ := d2 h
-        refine ⟨a, ?_⟩
         have hq : Cons φ q.2 q.1 := by
           rcases g3 with ⟨e1, e2⟩ | g3
           · rw [e1, e2]; exact hc
           · exact g3
+        obtain ⟨d1, d2⟩ := doGet_spec m cfg φ s0 q.1 q.2 (by simpa [hasDescent] using hd)
+        refine ⟨by simp at h1 ⊢; omega, fun h => ?_⟩
+        obtain ⟨a, c⟩ := d2 h
+        refine ⟨a, ?_⟩
         rcases c with ⟨e1, e2⟩ | c
         · rw [e1, e2]; exact hq
         · exact c
@@ -238,6 +228,40 @@ theorem get_spec (m : Method) (cfg : Cfg α) (φ : Oracle α) (s0 : Eval α) (t0
       exact ⟨by simp at h1 ⊢; omega, fun h => by simp at h⟩
   · simp only [get, hd]
     exact ⟨by simp, fun h => by simp at h⟩
+
+/-- a successful `get` is a `do_get` entered along a descent direction with a positive step (when `macheps > 0`) and the
+    state being the oracle's answer at that step -/
+theorem get_eq_doGet (m : Method) (cfg : Cfg α) (φ : Oracle α) (s0 : Eval α) (t0 : α) (hM : 0 < cfg.maxIter)
+    (h : (get m cfg φ s0 t0).ok = true) :
+    ∃ t ctx, (0 < cfg.macheps → 0 < t) ∧ Cons φ ctx t ∧ s0.g < 0 ∧ get m cfg φ s0 t0 = doGet m cfg φ s0 t ctx := by
+  by_cases hd : hasDescent s0.g = true
+  · obtain ⟨_, h2, h3⟩ := shrink_spec φ cfg.maxIter (initialStep cfg t0) ⟨s0, []⟩
+    revert h
+    simp only [get, hd, if_true]
+    generalize shrink φ cfg.maxIter (initialStep cfg t0) ⟨s0, []⟩ = p at h2 h3 ⊢
+    by_cases hok : p.2.cur.ok = true
+    · simp only [hok, if_true]
+      have hc : Cons φ p.2 p.1 := by
+        rcases h3 with ⟨h3, h0⟩ | h3 | h3
+        · omega
+        · rw [hok] at h3; cases h3
+        · exact h3
+      have hg := grow_spec φ cfg.eps1 s0.f cfg.maxIter p.1 p.2
+      generalize grow φ cfg.eps1 s0.f cfg.maxIter p.1 p.2 = g at hg ⊢
+      cases g with
+      | inl q => intro h; simp at h
+      | inr q =>
+        obtain ⟨_, g2, g3⟩ := hg
+        intro _
+        refine ⟨q.1, q.2, fun he => g2 (h2 (initialStep_pos cfg t0 he)), ?_, by simpa [hasDescent] using hd, rfl⟩
+        rcases g3 with ⟨e1, e2⟩ | g3
+        · rw [e1, e2]; exact hc
+        · exact g3
+    · simp only [hok]
+      intro h; simp at h
+  · revert h
+    simp only [get, hd]
+    intro h; simp at h
 
 /-- a property of the returned step carried through the preamble (which hands a positive step to `do_get`) -/
 theorem get_step_prop (P : α → Prop) (m : Method) (cfg : Cfg α) (φ : Oracle α) (s0 : Eval α) (t0 : α)
@@ -269,7 +293,8 @@ theorem get_pos (m : Method) (cfg : Cfg α) (φ : Oracle α) (s0 : Eval α) (t0 
     (get m cfg φ s0 t0).ok = true → 0 < (get m cfg φ s0 t0).t :=
   get_step_prop (fun x => 0 < x) m cfg φ s0 t0 he hdo
 
-/-! ### Moré–Thuente: the trial step never becomes negative (it can become 0 through the `stp = stx` fallback) -/
+/-! ### Moré–Thuente: the trial step never becomes negative (it can become 0 through the `stp = stx` fallback, and such a
+  step is accepted only if the oracle's answer at 0 passes the convergence test) -/
 
 theorem dcstep_stx_nonneg (cfg : Cfg α) (s : DC α) (fp dp lo hi : α) (h1 : 0 ≤ s.stx) (h2 : 0 ≤ s.stp) :
     0 ≤ (dcstep cfg s fp dp lo hi).stx := by
@@ -305,6 +330,7 @@ theorem morethuente_nonneg (cfg : Cfg α) (φ : Oracle α) (s0 : Eval α) (he : 
       he (mtDcstep_stx_nonneg cfg s0 m _ _ _ h1 h2)
     simp only [morethuente]
     exact ite_post (P := fun r : Res α => 0 ≤ r.t) (fun _ => h2)
-      (fun _ => ite_post (P := fun r : Res α => 0 ≤ r.t) (fun _ => ih _ _ hn.1 hn.2) (fun _ => hn.2))
+      (fun _ => ite_post (P := fun r : Res α => 0 ≤ r.t) (fun _ => h2)
+        (fun _ => ite_post (P := fun r : Res α => 0 ≤ r.t) (fun _ => ih _ _ hn.1 hn.2) (fun _ => hn.2)))
 
 end NanoVerif.LSearch
